@@ -127,7 +127,6 @@ func genC41rls(seed uint64, tier string) *c41rScenario {
 		s.Actors = append(s.Actors, ops)
 	}
 	s.Keys = genC41k(r.Fork(), tier)
-	s.Keys = c41kScenario{} // TEMP-DEV
 	return s
 }
 
